@@ -86,6 +86,23 @@ class Impl:
             except BaseException as e:  # noqa: BLE001
                 return {"err": C.err_name(e)}
             return {"ok": {"msg": C.msg_to_json(m), "rest": len(r.get_remaining_data())}}
+        if op == "ftext":
+            return {"hex": str(C.filter_from_json(j["filter"])).encode("utf-8", errors="surrogatepass").hex()}
+        if op == "fparse":
+            from sansldap._filter import FilterSyntaxError
+
+            text = "".join(chr(c) for c in j["cps"])
+            try:
+                f = sansldap.LDAPFilter.from_string(text)
+            except FilterSyntaxError as e:
+                return {"err": {"off": e.offset, "len": e.length}}
+            except BaseException as e:  # noqa: BLE001
+                return {"err": "Other:" + type(e).__name__}
+            return {"ok": C.filter_to_json(f)}
+        if op == "attr_valid":
+            from sansldap import _filter as F
+
+            return {"ok": bool(F._ATTRIBUTE_PATTERN.match(bytes.fromhex(j["hex"]).decode("utf-8")))}
         raise KeyError(op)
 
     # ------------------------------------------------------------ sessions
